@@ -50,6 +50,31 @@ func Keys() []Key {
 	return keys
 }
 
+var (
+	bigOnce sync.Once
+	bigKey  Key
+)
+
+// BigKey is a fixed RSA-4096 key outside the pool: signatures and encoded public keys of several hundred bytes.
+func BigKey() Key {
+	bigOnce.Do(func() {
+		b, err := hex.DecodeString(bigKeyHex)
+		if err != nil {
+			panic(err)
+		}
+		p, err := ic.UnmarshalPrivateKey(b)
+		if err != nil {
+			panic(err)
+		}
+		id, err := peer.IDFromPrivateKey(p)
+		if err != nil {
+			panic(err)
+		}
+		bigKey = Key{Type: "rsa-4096", Priv: p, ID: id}
+	})
+	return bigKey
+}
+
 // KeyIdx draws an index into Keys(); RSA keys (slow) get ~5 % of the draws.
 func KeyIdx() *rapid.Generator[int] {
 	return rapid.Custom(func(t *rapid.T) int {
@@ -209,6 +234,11 @@ func DNSName() *rapid.Generator[string] {
 			if rapid.IntRange(0, 3).Draw(t, "protolabel") == 0 {
 				// host names that look like multiaddr protocol names: text-based shortcuts must not be fooled
 				s += rapid.SampledFrom([]string{"http", "https", "httpbin", "http-path", "tls", "tcp", "udp", "p2p", "ip4", "quic-v1", "ws", "wss", "dns4"}).Draw(t, "plabel")
+				continue
+			}
+			if rapid.IntRange(0, 3).Draw(t, "digitlabel") == 0 {
+				// labels may start with a digit (3scale, 1up, 4everland), also the last one, as long as it is not a number
+				s += rapid.StringMatching(`[0-9]{1,2}[a-z][a-z0-9-]{0,6}[a-z0-9]`).Draw(t, "dlabel")
 				continue
 			}
 			s += rapid.StringMatching(`[a-z][a-z0-9-]{0,8}[a-z0-9]`).Draw(t, "label")
